@@ -20,4 +20,20 @@ def run(c):
         out = c.harness("mbox", args, timeout=900)
         if out:
             c.monitor("mbox-fallback", out)
+    # fallback chains / rings: where one send ends, against the model Mbox/Fallback.v (each case in a child process:
+    # before the fix a ring of full mailboxes killed the node)
+    is_ring_replay = False
+    if c.replay:
+        import json
+        is_ring_replay = json.load(open(c.replay)).get("engine", "").startswith("fbring")
+    if not c.replay or is_ring_replay:
+        args = ["fbring", "-replay", c.replay] if is_ring_replay else ["fbring", "-n", "60" if c.tier == "quick" else "1500"]
+        out = c.harness("mbox", args, timeout=1200)
+        if out:
+            for n in out.get("notes") or []:
+                c.broken.append({"kind": "harness-run", "what": n})
+            c.cases("fbring", out, "From Ergo Require Import Common.Base Mbox.Fallback Mbox.FallbackCases.\nLocal Open Scope Z_scope.",
+                    "frcase", corr=["corr_fb"], spec=["spec_fb"], premise=["premise_fb"])
+    c.assumptions.append("fallback routing: the mailbox states are frozen during one send (receivers blocked by the harness); "
+                         "concurrent draining while a chain is being walked is outside the model")
     c.assumptions.append("time.Timer.Stop returns true iff it prevented the function from running (Go runtime contract; hypothesis of C02_delayed)")
